@@ -37,8 +37,18 @@ type rwOptions struct {
 
 func rwRun(t *testing.T, c rwCase, opt rwOptions) (res rwResult) {
 	res.Classes = map[string]int{}
+	gates := &c08Gates{armed: map[string]chan struct{}{}, parked: map[string]bool{}}
+	for _, o := range c.Ops {
+		if o.Window {
+			hook := func(p string) { gates.hook(p) }
+			vfYieldHook.Store(&hook)
+			defer vfYieldHook.Store(nil)
+			break
+		}
+	}
 	leak, p := vfBubble(t, func() {
 		w := newRWWorld(c)
+		w.gates = gates
 		late := map[int]bool{}
 		for _, j := range c.LateTargets {
 			late[j%c.NT] = true
@@ -63,6 +73,7 @@ func rwRun(t *testing.T, c rwCase, opt rwOptions) (res rwResult) {
 			rwApply(w, o)
 			after()
 		}
+		w.closeWindow()
 		if opt.drain || opt.epilogue {
 			w.step++
 			for j := 0; j < c.NT; j++ {
@@ -172,6 +183,9 @@ func rwApply(w *rwWorld, o rwOp) {
 	case "connect":
 		if o.Side == "T" {
 			j := o.I % len(w.targets)
+			if w.windowTarget == j {
+				w.closeWindow()
+			}
 			if w.liveT(j) == nil {
 				w.open("T", j)
 			}
@@ -201,6 +215,11 @@ func rwBreak(w *rwWorld, o rwOp) {
 	inc.ended = true
 	if o.Side == "T" {
 		w.targets[o.I%len(w.targets)].connected = false
+	}
+	if o.Window && o.Side == "T" && w.gates != nil && w.windowTarget < 0 {
+		w.gates.arm("sender.closed")
+		w.windowTarget = o.I % len(w.targets)
+		w.classes["target_broken_with_sender_parked_after_closing_its_channel"]++
 	}
 	// the face that carries the data in our direction: S -> its client stream (cs), T -> its server stream (ss)
 	switch o.How {
@@ -262,6 +281,16 @@ func rwBreak(w *rwWorld, o rwOp) {
 }
 
 func rwClassify(w *rwWorld, res *rwResult) {
+	for k := range w.classes {
+		res.Classes[k] = 1
+	}
+	for _, s := range w.sources {
+		for _, r := range s.allTasks {
+			if r.inClosedWindow {
+				res.Classes["task_arrived_while_target_sender_had_closed_its_channel"] = 1
+			}
+		}
+	}
 	// class counters used for non-triviality
 	for _, s := range w.sources {
 		tg := map[int]bool{}
@@ -536,7 +565,11 @@ func rwGenFault(t *rapid.T, c rwCase) rwOp {
 	if side == "T" {
 		n = c.NT
 	}
-	return rwOp{K: "break", Side: side, I: rapid.IntRange(0, n-1).Draw(t, "bi"), How: rapid.SampledFrom([]string{"recvErr", "recvEOF", "sendErr", "cancel", "cancel"}).Draw(t, "how")}
+	op := rwOp{K: "break", Side: side, I: rapid.IntRange(0, n-1).Draw(t, "bi"), How: rapid.SampledFrom([]string{"recvErr", "recvEOF", "sendErr", "cancel", "cancel"}).Draw(t, "how")}
+	if side == "T" && rapid.IntRange(0, 3).Draw(t, "window") == 0 {
+		op.Window = true
+	}
+	return op
 }
 
 func rwFingerprint(c rwCase) uint64 { return vfshared.Fingerprint(c.String()) }
